@@ -5,7 +5,8 @@
 EXTENDS Containers, TLC, Json
 
 CONSTANTS KIND,      \* "table" | "inline" | "tablelike_table" | "tablelike_inline" | "map_sorted" | "map_insertion" | "array" | "aot"
-          MaxN, Keys, EMIT
+          MaxN, Keys, EMIT,
+          SAMPLE     \* keep one in SAMPLE of the operations at the last level (1 = all)
 
 IsSeqKind == KIND \in {"array", "aot"}
 TableVals == IF KIND \in {"table", "tablelike_table"} THEN {1, 3, 4} ELSE IF KIND \in {"map_sorted", "map_insertion"} THEN {1, 2} ELSE {1, 2}
@@ -40,10 +41,13 @@ SeqOps ==
 VARIABLES st, hist, ret
 vars == <<st, hist, ret>>
 Init == st = <<>> /\ hist = <<>> /\ ret = 0 - 1
+OpWeight(o) == Len(o.op) + Ord(o.k) * 3 + o.v * 5 + o.i * 7 + Cardinality(o.ks) * 11 + Cardinality(o.vs) * 13
+HistWeight == IF hist = <<>> THEN 0 ELSE OpWeight(hist[1]) + 17 * Len(hist) + (IF Len(hist) > 1 THEN 19 * OpWeight(hist[2]) ELSE 0)
+Keep(o) == IF Len(hist) + 1 < MaxN \/ SAMPLE = 1 THEN TRUE ELSE (OpWeight(o) + HistWeight) % SAMPLE = 0
 MapStep == /\ ~IsSeqKind /\ Len(hist) < MaxN
-           /\ \E o \in MapOps : \E r \in MapApply(KIND, st, o) : st' = r.m /\ ret' = r.ret /\ hist' = Append(hist, o)
+           /\ \E o \in MapOps : Keep(o) /\ \E r \in MapApply(KIND, st, o) : st' = r.m /\ ret' = r.ret /\ hist' = Append(hist, o)
 SeqStep == /\ IsSeqKind /\ Len(hist) < MaxN
-           /\ \E o \in SeqOps : SeqEnabled(st, o) /\ \E r \in SeqApply(st, o) : st' = r.m /\ ret' = r.ret /\ hist' = Append(hist, o)
+           /\ \E o \in SeqOps : Keep(o) /\ SeqEnabled(st, o) /\ \E r \in SeqApply(st, o) : st' = r.m /\ ret' = r.ret /\ hist' = Append(hist, o)
 Next == MapStep \/ SeqStep
 Spec == Init /\ [][Next]_vars
 
